@@ -292,3 +292,540 @@ Example vp_accept_neg_example : vp_parse (VPI64 (-5) 300) [45; 53] = None.      
 Proof. reflexivity. Qed.
 Example vp_reject_neg_example : vp_parse (VPI64 (-5) 300) [45; 54] = Some EValueValidation.    (* "-6" *)
 Proof. reflexivity. Qed.
+
+(** * 3. the reaction to one occurrence: [react_core] *)
+
+Lemma fold_expect_not_err {A B} (f : A -> B -> res A) (l : list B) :
+  (forall a b e st, f a b <> RErr e st) ->
+  forall r, (forall e st, r <> RErr e st) ->
+  forall e st, fold_left (fun rm b => do m <- rm; f m b) l r <> RErr e st.
+Proof.
+  intros Hf. induction l as [|b t IH]; intros r Hr e st; cbn [fold_left]; [apply Hr|].
+  apply IH. intros e' st'. destruct r as [a|e0 st0|s]; cbn [rbind].
+  - apply Hf. - exfalso. apply (Hr e0 st0). reflexivity. - discriminate.
+Qed.
+
+Lemma start_custom_arg_not_err c a s m e st : start_custom_arg c a s m <> RErr e st.
+Proof.
+  unfold start_custom_arg. destruct (src_explicit s); [|discriminate].
+  apply (fold_expect_not_err (fun m g => expect 1533 (add_val_to (start_custom_group_m m g s) g (a_id a)))).
+  - intros m0 g e0 st0. destruct (add_val_to _ _ _); cbn; discriminate.
+  - discriminate.
+Qed.
+
+Lemma fm_remove_contains {V} k (l : list (id * V)) : snd (fm_remove k l) = fm_contains k l.
+Proof.
+  unfold fm_contains. induction l as [|[k' v] t IH]; cbn [fm_remove fm_get]; [reflexivity|].
+  destruct (beq k' k); [reflexivity|]. destruct (fm_remove k t) as [t' b]. cbn [snd] in *. exact IH.
+Qed.
+
+(** why the reaction to one occurrence of [a] (values [raw], source [s]) was an error *)
+Inductive react_cause (c : cmd) (a : arg) (s : src) (raw : list bytes) (st : ps) (e : error) : Prop :=
+| RCCount :                     (* the number of values of the occurrence is outside the declared range *)
+    s = SCmdLine -> (exists st', verify_num_args c a raw st = RErr e st') -> react_cause c a s raw st e
+| RCRepeat :                    (* a non-repeatable argument that is already present, without self-override *)
+    e_kind e = EArgumentConflict -> e_arg e = a_id a ->
+    mt_contains (mt st) (a_id a) = true ->
+    (is_set s_args_override_self c || mem_id (a_id a) (a_overrides a)) = false ->
+    In (a_get_action a) [ASet; ASetTrue; ASetFalse] -> react_cause c a s raw st e
+| RCValue :                     (* a value outside the language of the argument's value parser *)
+    (exists vp v, a_vp a = Some vp /\ vp_parse vp v = Some (e_kind e) /\ ~ in_lang vp v) ->
+    e_arg e = a_id a -> react_cause c a s raw st e
+| RCHelp :
+    e_kind e = EDisplayHelp -> In (a_get_action a) [AHelp; AHelpShort; AHelpLong] -> react_cause c a s raw st e
+| RCVersion :
+    e_kind e = EDisplayVersion -> a_get_action a = AVersion -> react_cause c a s raw st e.
+
+Lemma push_cause c a s raw0 st0 raw st e st' :
+  push_arg_values c a raw st = RErr e st' -> react_cause c a s raw0 st0 e.
+Proof.
+  intros H. destruct (push_arg_values_sound _ _ _ _ _ _ H) as [vp [v [H1 [_ [H3 [H4 H5]]]]]].
+  apply RCValue; [exists vp, v; repeat split; assumption|exact H5].
+Qed.
+
+Lemma mt_remove_snd m i : snd (mt_remove m i) = mt_contains m i.
+Proof.
+  unfold mt_remove, mt_contains. rewrite <- fm_remove_contains.
+  destruct (fm_remove i (mt_args m)) as [l b]. reflexivity.
+Qed.
+
+Lemma expect_not_err {A} site (o : option A) e st : expect site o <> RErr e st.
+Proof. destruct o; discriminate. Qed.
+
+(** the common tail of the Set / SetTrue / SetFalse branches *)
+Lemma set_like_cause c a s raw0 st0 (stb : ps) raw e st' :
+  mt stb = mt st0 ->
+  In (a_get_action a) [ASet; ASetTrue; ASetFalse] ->
+  (let '(m1, removed) := mt_remove (mt stb) (a_id a) in
+   if removed && negb (is_set s_args_override_self c || mem_id (a_id a) (a_overrides a))
+   then RErr (mkerr c EArgumentConflict (a_id a)) (stb <| mt := m1 |>)
+   else do m2 <- start_custom_arg c a s m1;
+        do st' <- push_arg_values c a raw (stb <| mt := m1 |> <| mt := m2 |>);
+        ROk (st', PRValuesDone)) = RErr e st' ->
+  react_cause c a s raw0 st0 e.
+Proof.
+  intros Hmt Hact H.
+  pose proof (mt_remove_snd (mt stb) (a_id a)) as Hs.
+  destruct (mt_remove (mt stb) (a_id a)) as [m1 removed]. cbn [snd] in Hs.
+  destruct (removed && negb (is_set s_args_override_self c || mem_id (a_id a) (a_overrides a))) eqn:Ec.
+  - injection H as <- _. apply andb_true_iff in Ec. destruct Ec as [E1 E2]. subst removed.
+    apply RCRepeat; try reflexivity; [rewrite <- Hmt; symmetry; exact Hs|apply negb_true_iff in E2; exact E2|exact Hact].
+  - destruct (start_custom_arg c a s m1) as [m2|e1 s1|p1] eqn:Esc; cbn [rbind] in H.
+    + destruct (push_arg_values c a raw _) as [s2|e2 s2|p2] eqn:Ep; cbn [rbind] in H; try discriminate H.
+      injection H as <- _. eapply push_cause, Ep.
+    + exfalso. eapply start_custom_arg_not_err, Esc.
+    + discriminate H.
+Qed.
+
+Theorem react_core_err_sound c idn s a raw ti st e st' :
+  react_core c idn s a raw ti st = RErr e st' -> react_cause c a s raw st e.
+Proof.
+  unfold react_core. intros H.
+  destruct (if is_cmdline s then verify_num_args c a raw st else ROk tt) as [[]|e0 s0|p0] eqn:Ev; cbn [rbind] in H.
+  2:{ injection H as <- <-. destruct (is_cmdline s) eqn:Es; [|discriminate Ev].
+      apply RCCount; [destruct s; try discriminate Es; reflexivity|exists s0; exact Ev]. }
+  2:{ discriminate H. }
+  match type of H with (let '(_, _) := ?p in _) = _ => destruct p as [raw1 ti1] end.
+  destruct (expect 1184 (delimit c a raw1 ti1)) as [raw2|e1 s1|p1] eqn:Ed; cbn [rbind] in H;
+    [|exfalso; eapply expect_not_err, Ed|discriminate H].
+  destruct (a_get_action a) eqn:Eact.
+  - eapply set_like_cause; [| |exact H]; [destruct (_ && _ && _); reflexivity|rewrite Eact; cbn; auto].
+  - destruct (start_custom_arg c a s _) as [m2|e2 s2|p2] eqn:Esc; cbn [rbind] in H.
+    + destruct (push_arg_values c a raw2 _) as [s3|e3 s3|p3] eqn:Ep; cbn [rbind] in H; try discriminate H.
+      injection H as <- _. eapply push_cause, Ep.
+    + exfalso. eapply start_custom_arg_not_err, Esc.
+    + discriminate H.
+  - eapply set_like_cause; [| |exact H]; [destruct (_ && _ && _); reflexivity|rewrite Eact; cbn; auto].
+  - eapply set_like_cause; [| |exact H]; [destruct (_ && _ && _); reflexivity|rewrite Eact; cbn; auto].
+  - destruct (mt_remove (mt st) (a_id a)) as [m1 rem].
+    destruct (start_custom_arg c a s m1) as [m2|e2 s2|p2] eqn:Esc; cbn [rbind] in H.
+    + destruct (push_arg_values c a _ _) as [s3|e3 s3|p3] eqn:Ep; cbn [rbind] in H; try discriminate H.
+      injection H as <- _. eapply push_cause, Ep.
+    + exfalso. eapply start_custom_arg_not_err, Esc.
+    + discriminate H.
+  - injection H as <- _. apply RCHelp; [reflexivity|rewrite Eact; cbn; auto].
+  - injection H as <- _. apply RCHelp; [reflexivity|rewrite Eact; cbn; auto].
+  - injection H as <- _. apply RCHelp; [reflexivity|rewrite Eact; cbn; auto].
+  - injection H as <- _. apply RCVersion; [reflexivity|exact Eact].
+Qed.
+
+(** [react] = [resolve_pending] (the reaction to the *pending* occurrence) then [react_core] *)
+Theorem resolve_pending_err_sound c st e st' :
+  resolve_pending c st = RErr e st' ->
+  exists p a, mt_pending (mt st) = Some p /\ find_arg c (p_id p) = Some a /\
+              react_cause c a SCmdLine (p_raw p) (st <| mt := (mt st) <| mt_pending := None |> |>) e.
+Proof.
+  unfold resolve_pending. destruct (mt_pending (mt st)) as [p|] eqn:Ep; [|discriminate].
+  destruct (find_arg c (p_id p)) as [a|] eqn:Ea; cbn [expect rbind]; [|discriminate].
+  destruct (react_core c (p_ident p) SCmdLine a (p_raw p) (p_trailing_idx p) _) as [x|e1 s1|p1] eqn:Er;
+    cbn [rbind]; try discriminate.
+  intros H; injection H as <- _. exists p, a. split; [reflexivity|split; [exact Ea|]]. eapply react_core_err_sound, Er.
+Qed.
+
+(** * 4. the validator: [validate] *)
+
+(** [i] is an explicitly present entry of the matcher (an argument or a group) *)
+Definition explicit_id (m : matcher) (i : id) : Prop := In i (map fst (explicit_entries m)).
+(** [y] is among the direct conflicts [gather_direct_conflicts] computes for [x]: the ids [x]
+    declares in [conflicts_with] / [overrides_with], the conflicts of the groups it belongs to,
+    and the other members of its non-[multiple] groups *)
+Definition directly_conflicts (c : cmd) (x y : id) : Prop :=
+  exists l, gather_direct_conflicts c x = Some l /\ In y l.
+
+Lemma first_err_in (l : list vres) k a : first_err l = VErr k a -> In (VErr k a) l.
+Proof.
+  induction l as [|x t IH]; cbn [first_err]; [discriminate|].
+  destruct x; intros H; [right; apply IH, H|left; exact H|discriminate H].
+Qed.
+
+Lemma cwa_entries c m : forall pot,
+  conflicts_with_args c m = Some pot ->
+  forall k conf, In (k, conf) pot -> explicit_id m k /\ gather_direct_conflicts c k = Some conf.
+Proof.
+  unfold conflicts_with_args, explicit_id. induction (explicit_entries m) as [|p t IH]; cbn [fold_right map].
+  - intros pot H; injection H as <-. intros k conf [].
+  - intros pot H k conf Hin.
+    destruct (fold_right _ (Some []) t) as [l|] eqn:El; [|discriminate H].
+    destruct (gather_direct_conflicts c (fst p)) as [cf|] eqn:Eg; [|discriminate H].
+    injection H as <-. destruct Hin as [Hin|Hin].
+    + injection Hin as <- <-. split; [left; reflexivity|exact Eg].
+    + destruct (IH l eq_refl k conf Hin) as [H1 H2]. split; [right; exact H1|exact H2].
+Qed.
+
+Lemma fm_get_in {V} k (l : list (id * V)) v : fm_get k l = Some v -> In (k, v) l.
+Proof.
+  induction l as [|[k' v'] t IH]; cbn [fm_get]; [discriminate|].
+  destruct (beq k' k) eqn:E.
+  - intros H; injection H as <-. apply beq_eq in E. subst k'. left; reflexivity.
+  - intros H. right. apply IH, H.
+Qed.
+
+Lemma mem_id_in x l : mem_id x l = true -> In x l.
+Proof.
+  unfold mem_id. intros H. apply existsb_exists in H. destruct H as [y [Hy Hb]]. apply beq_eq in Hb. subst y. exact Hy.
+Qed.
+
+(** a non-empty result of [gather_conflicts] exhibits an explicitly present partner *)
+Lemma gather_conflicts_sound c m pot n conf other :
+  conflicts_with_args c m = Some pot ->
+  gather_conflicts c pot n = Some conf -> In other conf ->
+  explicit_id m other /\ other <> n /\ (directly_conflicts c n other \/ directly_conflicts c other n).
+Proof.
+  intros Hpot Hg Hin. unfold gather_conflicts in Hg.
+  assert (Hmine : forall mine, match fm_get n pot with Some x => Some x | None => gather_direct_conflicts c n end = Some mine ->
+                               gather_direct_conflicts c n = Some mine).
+  { intros mine Hm. destruct (fm_get n pot) as [x|] eqn:Ef; [|exact Hm]. injection Hm as <-.
+    apply fm_get_in in Ef. apply (cwa_entries _ _ _ Hpot) in Ef. tauto. }
+  destruct (match fm_get n pot with Some x => Some x | None => gather_direct_conflicts c n end) as [mine|] eqn:Em;
+    [|discriminate Hg].
+  specialize (Hmine mine eq_refl). injection Hg as <-.
+  apply in_flat_map in Hin. destruct Hin as [[o oconf] [Hop Hin]].
+  destruct (cwa_entries _ _ _ Hpot _ _ Hop) as [Hexp Hgo].
+  destruct (beq n o) eqn:Eno; [destruct Hin|]. apply beq_neq in Eno.
+  apply in_app_or in Hin. destruct Hin as [Hin|Hin].
+  - destruct (mem_id o mine) eqn:Emem; [|destruct Hin]. destruct Hin as [<-|[]].
+    split; [exact Hexp|]. split; [congruence|]. left. exists mine. split; [exact Hmine|apply mem_id_in, Emem].
+  - destruct (mem_id n oconf) eqn:Emem; [|destruct Hin]. destruct Hin as [<-|[]].
+    split; [exact Hexp|]. split; [congruence|]. right. exists oconf. split; [exact Hgo|apply mem_id_in, Emem].
+Qed.
+
+Lemma build_conflict_err_sound c name ids k a :
+  build_conflict_err c name ids = VErr k a -> k = EArgumentConflict /\ a = name /\ ids <> [] /\ is_some (find_arg c name) = true.
+Proof.
+  unfold build_conflict_err. destruct ids as [|i0 it]; cbn [is_nil]; [discriminate|].
+  destruct (fold_right _ (Some []) (i0 :: it)) as [l|]; [|discriminate].
+  destruct (forallb _ l); [|discriminate]. destruct (find_arg c name) eqn:Ef; [|discriminate].
+  intros H; injection H as <- <-. repeat split. discriminate.
+Qed.
+
+Lemma validate_exclusive_sound c m k n :
+  validate_exclusive c m = VErr k n ->
+  k = EArgumentConflict /\
+  exists a, find_arg c n = Some a /\ a_exclusive a = true /\ explicit_id m n /\
+            (2 <= length (filter (fun p => is_some (find_arg c (fst p))) (explicit_entries m)))%nat.
+Proof.
+  unfold validate_exclusive.
+  destruct (Nat.leb (length (filter _ (explicit_entries m))) 1) eqn:El; [discriminate|].
+  apply Nat.leb_gt in El.
+  destruct (find_map _ (explicit_entries m)) as [a|] eqn:Ef; [|discriminate].
+  intros H; injection H as <- <-. split; [reflexivity|].
+  assert (Hfm : forall l, find_map (fun p : id * marg => match find_arg c (fst p) with
+                                     | Some a => if a_exclusive a then Some a else None
+                                     | None => None end) l = Some a ->
+                exists p, In p l /\ find_arg c (fst p) = Some a /\ a_exclusive a = true).
+  { induction l as [|p t IH]; cbn [find_map]; [discriminate|].
+    destruct (find_arg c (fst p)) as [a0|] eqn:Ea0.
+    - destruct (a_exclusive a0) eqn:Ex.
+      + intros H; injection H as ->. exists p. split; [left; reflexivity|]. split; assumption.
+      + intros H. destruct (IH H) as [q [H1 H2]]. exists q. split; [right; exact H1|exact H2].
+    - intros H. destruct (IH H) as [q [H1 H2]]. exists q. split; [right; exact H1|exact H2]. }
+  destruct (Hfm _ Ef) as [p [Hp [Hfa Hex]]].
+  assert (Hid : a_id a = fst p).
+  { unfold find_arg in Hfa. apply find_some in Hfa. destruct Hfa as [_ Hb]. apply beq_eq in Hb. exact Hb. }
+  exists a. rewrite Hid. split; [exact Hfa|]. split; [exact Hex|]. split; [apply in_map, Hp|lia].
+Qed.
+
+(** ArgumentConflict is justified: the named argument is explicitly present, and either it is
+    [exclusive] while another argument is explicitly present too, or some *other* explicitly
+    present entry stands in a declared direct conflict with it (in one direction or the other) *)
+Theorem validate_conflict_sound c m n :
+  validate c m = VErr EArgumentConflict n ->
+  explicit_id m n /\ is_some (find_arg c n) = true /\
+  ((exists a, find_arg c n = Some a /\ a_exclusive a = true /\
+              (2 <= length (filter (fun p => is_some (find_arg c (fst p))) (explicit_entries m)))%nat)
+   \/ exists other, explicit_id m other /\ other <> n /\
+                    (directly_conflicts c n other \/ directly_conflicts c other n)).
+Proof.
+  unfold validate. destruct (conflicts_with_args c m) as [pot|] eqn:Ep; [|discriminate].
+  destruct (negb (is_some (mt_sub m)) && is_set s_arg_required_else_help c && is_nil (explicit_entries m)); [discriminate|].
+  destruct (negb (is_some (mt_sub m)) && is_set s_sub_required c); [discriminate|].
+  destruct (validate_conflicts c m pot) as [|k a|s] eqn:Ev.
+  - destruct (is_set s_subs_negate_reqs c && is_some (mt_sub m)); [discriminate|].
+    destruct (missing_required c m pot) as [[|x t]|]; discriminate.
+  - intros H; injection H as -> ->. unfold validate_conflicts in Ev.
+    destruct (validate_exclusive c m) as [|k' a'|s'] eqn:Ex.
+    + apply first_err_in in Ev. apply in_map_iff in Ev. destruct Ev as [p [Hp Hin]].
+      apply filter_In in Hin. destruct Hin as [Hin Harg].
+      destruct (gather_conflicts c pot (fst p)) as [conf|] eqn:Eg; [|discriminate Hp].
+      apply build_conflict_err_sound in Hp. destruct Hp as [_ [Hn [Hne Hfa]]]. subst n.
+      split; [apply in_map, Hin|]. split; [exact Hfa|]. right.
+      destruct conf as [|o ot]; [contradiction Hne; reflexivity|].
+      exists o. apply (gather_conflicts_sound c m pot (fst p) (o :: ot) o Ep Eg). left; reflexivity.
+    + injection Ev as -> ->. apply validate_exclusive_sound in Ex. destruct Ex as [_ [a [H1 [H2 [H3 H4]]]]].
+      split; [exact H3|]. split; [rewrite H1; reflexivity|]. left. exists a. repeat split; assumption.
+    + discriminate Ev.
+  - discriminate.
+Qed.
+
+(** what the direct conflicts of an argument are made of: declared relations only *)
+Lemma gather_arg_direct_conflicts_in c a l y :
+  gather_arg_direct_conflicts c a = Some l -> In y l ->
+  In y (a_blacklist a) \/ In y (a_overrides a) \/
+  exists gid g, In gid (groups_for_arg c (a_id a)) /\ find_group c gid = Some g /\
+                (In y (g_conflicts g) \/ (g_multiple g = false /\ In y (g_args g) /\ y <> a_id a)).
+Proof.
+  unfold gather_arg_direct_conflicts.
+  set (step := fun (acc : option (list id)) (gid : id) =>
+                 match acc with
+                 | None => None
+                 | Some conf =>
+                     match find_group c gid with
+                     | None => None
+                     | Some grp =>
+                         let conf := conf ++ g_conflicts grp in
+                         Some (if negb (g_multiple grp)
+                               then conf ++ filter (fun m => negb (beq m (a_id a))) (g_args grp)
+                               else conf)
+                     end
+                 end).
+  assert (Hgen : forall gids acc res,
+            fold_left step gids acc = Some res -> In y res ->
+            (exists conf0, acc = Some conf0 /\ In y conf0) \/
+            exists gid g, In gid gids /\ find_group c gid = Some g /\
+                          (In y (g_conflicts g) \/ (g_multiple g = false /\ In y (g_args g) /\ y <> a_id a))).
+  { induction gids as [|gid t IH]; intros acc res Hf Hy; cbn [fold_left] in Hf.
+    - left. exists res. split; [exact Hf|exact Hy].
+    - destruct (IH _ _ Hf Hy) as [[conf0 [Hacc Hin]]|[gid' [g [H1 H2]]]].
+      + unfold step in Hacc. destruct acc as [conf|]; [|discriminate Hacc].
+        destruct (find_group c gid) as [grp|] eqn:Eg; [|discriminate Hacc]. injection Hacc as <-.
+        assert (Hcases : In y conf \/ In y (g_conflicts grp) \/
+                         (g_multiple grp = false /\ In y (filter (fun m => negb (beq m (a_id a))) (g_args grp)))).
+        { destruct (g_multiple grp); cbn [negb] in Hin.
+          - apply in_app_or in Hin. tauto.
+          - apply in_app_or in Hin. destruct Hin as [Hin|Hin]; [apply in_app_or in Hin; tauto|]. right; right. tauto. }
+        destruct Hcases as [Hc|[Hc|[Hm Hc]]].
+        * left. exists conf. split; [reflexivity|exact Hc].
+        * right. exists gid, grp. split; [left; reflexivity|]. split; [exact Eg|left; exact Hc].
+        * right. exists gid, grp. split; [left; reflexivity|]. split; [exact Eg|]. right.
+          apply filter_In in Hc. destruct Hc as [Hc1 Hc2]. apply negb_true_iff, beq_neq in Hc2.
+          repeat split; assumption.
+      + right. exists gid', g. split; [right; exact H1|exact H2]. }
+  intros H Hy.
+  destruct (fold_left step (groups_for_arg c (a_id a)) (Some (a_blacklist a))) as [conf|] eqn:Ef; [|discriminate H].
+  injection H as <-. apply in_app_or in Hy. destruct Hy as [Hy|Hy]; [|right; left; exact Hy].
+  destruct (Hgen _ _ _ Ef Hy) as [[conf0 [Hc Hin]]|Hg].
+  - injection Hc as <-. left; exact Hin.
+  - right; right. exact Hg.
+Qed.
+
+Example conflict_example :
+  let a := (arg_new [97]) <| a_long := Some [97] |> <| a_blacklist := [[98]] |> in
+  let b := (arg_new [98]) <| a_long := Some [98] |> in
+  let c := (cmd_new [112]) <| c_args := [a; b] |> in
+  let ma := mkMarg (Some SCmdLine) [1] [[]] false false in
+  validate c (mkMatcher [([97], ma); ([98], ma)] None None) = VErr EArgumentConflict [97].
+Proof. vm_compute. reflexivity. Qed.
+
+(** ** MissingRequiredArgument *)
+Lemma fold_left_inv {A B} (f : A -> B -> A) (P : A -> Prop) (l : list B) :
+  (forall a b, In b l -> P a -> P (f a b)) -> forall a, P a -> P (fold_left f l a).
+Proof.
+  induction l as [|b t IH]; intros Hf a Ha; cbn [fold_left]; [exact Ha|].
+  apply IH; [intros a' b' Hb'; apply Hf; right; exact Hb'|apply Hf; [left; reflexivity|exact Ha]].
+Qed.
+
+(** the conditional requirement rules of [a] fire: [required_if_eq], [required_if_eq_all],
+    [required_unless_present(_any/_all)] *)
+Definition cond_required (m : matcher) (a : arg) : Prop :=
+  (existsb (fun r => check_explicit m (fst r) (PEquals (snd r))) (a_r_ifs a)
+   || (forallb (fun r => check_explicit m (fst r) (PEquals (snd r))) (a_r_ifs_all a) && negb (is_nil (a_r_ifs_all a)))
+   || ((negb (is_nil (a_r_unless a)) || negb (is_nil (a_r_unless_all a))) && fails_arg_required_unless m a)) = true.
+
+(** why [x] is reported missing: it is not explicitly present, and
+    - it is in the requirement set [req] ([required(true)] arguments and groups, what required groups
+      require, and the [requires] closure of the explicitly present arguments), or
+    - one of its conditional requirement rules fires, or
+    - it is a positional below a missing required positional (without [allow_missing_positional]) *)
+Definition missing_cause (c : cmd) (m : matcher) (req : list id) (x : id) : Prop :=
+  check_explicit m x PIsPresent = false /\
+  (In x req
+   \/ (exists a, In a (c_args c) /\ a_id a = x /\ cond_required m a)
+   \/ (exists p, In p (positionals c) /\ a_id p = x /\ is_set s_allow_missing_pos c = false)).
+
+Lemma find_arg_id c i a : find_arg c i = Some a -> a_id a = i /\ In a (c_args c).
+Proof.
+  unfold find_arg. intros H. apply find_some in H. destruct H as [H1 H2]. apply beq_eq in H2. split; assumption.
+Qed.
+Lemma find_group_id c i g : find_group c i = Some g -> g_id g = i /\ In g (c_groups c).
+Proof.
+  unfold find_group. intros H. apply find_some in H. destruct H as [H1 H2]. apply beq_eq in H2. split; assumption.
+Qed.
+
+Theorem missing_required_sound c m pot l :
+  missing_required c m pot = Some l ->
+  exists req, gather_requires c m (required_graph c) = Some req /\ Forall (missing_cause c m req) l.
+Proof.
+  unfold missing_required. destruct (gather_requires c m (required_graph c)) as [req|]; [|discriminate].
+  intros H. exists req. split; [reflexivity|].
+  set (Q := missing_cause c m req).
+  match type of H with
+  | match fold_left ?f req ?a0 with _ => _ end = _ =>
+      assert (H1 : match fold_left f req a0 with None => True | Some (ms, _) => Forall Q ms end)
+  end.
+  { apply fold_left_inv with (P := fun acc : option (list id * N) =>
+                                     match acc with None => True | Some (ms, _) => Forall Q ms end);
+      [|constructor].
+    intros acc aog Hin HP. destruct acc as [[ms h]|]; [|exact I].
+    destruct (check_explicit m aog PIsPresent) eqn:Ece; [exact HP|].
+    destruct (find_arg c aog) as [a|] eqn:Ea.
+    - destruct (existsb _ (explicit_entries m)); [exact HP|].
+      destruct (is_missing_required_ok c pot a) as [[|]|]; [exact HP| |exact I].
+      apply Forall_app. split; [exact HP|]. constructor; [|constructor].
+      destruct (find_arg_id _ _ _ Ea) as [-> _]. split; [exact Ece|left; exact Hin].
+    - destruct (find_group c aog) as [g|] eqn:Eg; [|exact HP].
+      destruct (unroll_args_in_group c (g_id g)) as [mem|]; [|exact I].
+      destruct (existsb _ mem); [exact HP|].
+      apply Forall_app. split; [exact HP|]. constructor; [|constructor].
+      destruct (find_group_id _ _ _ Eg) as [-> _]. split; [exact Ece|left; exact Hin]. }
+  match type of H with
+  | match ?s1 with _ => _ end = _ => destruct s1 as [[ms h]|]; [|discriminate H]
+  end.
+  match type of H with
+  | (let '(_, _) := fold_left ?f (c_args c) ?a0 in _) = _ =>
+      assert (H2 : Forall Q (fst (fold_left f (c_args c) a0)))
+  end.
+  { apply fold_left_inv with (P := fun acc : list id * N => Forall Q (fst acc)); [|exact H1].
+    intros [ms' h'] a Hin HP. cbn [fst] in HP.
+    destruct (check_explicit m (a_id a) PIsPresent) eqn:Ece; [exact HP|].
+    match goal with |- Forall Q (fst (if ?b then _ else _)) => destruct b eqn:Eb end; [|exact HP].
+    cbn [fst]. apply Forall_app. split; [exact HP|]. constructor; [|constructor].
+    split; [exact Ece|]. right; left. exists a. split; [exact Hin|]. split; [reflexivity|].
+    apply andb_true_iff in Eb. destruct Eb as [_ Eb]. unfold cond_required. exact Eb. }
+  match type of H with
+  | (let '(_, _) := ?s2 in _) = _ => destruct s2 as [ms2 h2]
+  end.
+  cbn [fst] in H2. injection H as <-.
+  destruct (negb (is_set s_allow_missing_pos c)) eqn:Eamp; [|exact H2].
+  apply negb_true_iff in Eamp.
+  apply fold_left_inv with (P := Forall Q); [|exact H2].
+  intros ms' p Hin HP.
+  destruct (check_explicit m (a_id p) PIsPresent) eqn:Ece; [exact HP|].
+  assert (Hq : Q (a_id p)).
+  { split; [exact Ece|]. right; right. exists p. repeat split; assumption. }
+  destruct (a_index p) as [i|]; [destruct (i <? h2)|]; try exact HP;
+    (apply Forall_app; split; [exact HP|constructor; [exact Hq|constructor]]).
+Qed.
+
+Lemma validate_conflicts_kind c m pot k a : validate_conflicts c m pot = VErr k a -> k = EArgumentConflict.
+Proof.
+  unfold validate_conflicts. destruct (validate_exclusive c m) as [|k' a'|s'] eqn:Ex.
+  - intros Ev. apply first_err_in in Ev. apply in_map_iff in Ev. destruct Ev as [p [Hp _]].
+    destruct (gather_conflicts c pot (fst p)); [|discriminate Hp].
+    apply build_conflict_err_sound in Hp. tauto.
+  - intros H; injection H as -> ->. apply validate_exclusive_sound in Ex. tauto.
+  - discriminate.
+Qed.
+
+(** MissingRequiredArgument is justified: the named argument (or group) is not explicitly present
+    and a requirement rule asks for it *)
+Theorem validate_missing_sound c m x :
+  validate c m = VErr EMissingRequiredArgument x ->
+  exists req, gather_requires c m (required_graph c) = Some req /\ missing_cause c m req x.
+Proof.
+  unfold validate. destruct (conflicts_with_args c m) as [pot|]; [|discriminate].
+  destruct (negb (is_some (mt_sub m)) && is_set s_arg_required_else_help c && is_nil (explicit_entries m)); [discriminate|].
+  destruct (negb (is_some (mt_sub m)) && is_set s_sub_required c); [discriminate|].
+  destruct (validate_conflicts c m pot) as [|k a|s] eqn:Ev.
+  - destruct (is_set s_subs_negate_reqs c && is_some (mt_sub m)); [discriminate|].
+    destruct (missing_required c m pot) as [[|y t]|] eqn:Em; try discriminate.
+    intros H; injection H as ->. destruct (missing_required_sound _ _ _ _ Em) as [req [Hr Hall]].
+    exists req. split; [exact Hr|]. inversion Hall; assumption.
+  - intros H; injection H as -> ->. apply validate_conflicts_kind in Ev. discriminate Ev.
+  - discriminate.
+Qed.
+
+(** what the requirement set is made of *)
+Lemma graph_insert_in g i x : In x (graph_insert g i) -> In x g \/ x = i.
+Proof.
+  unfold graph_insert. destruct (mem_id i g); [tauto|]. intros H. apply in_app_or in H.
+  destruct H as [H|[H|[]]]; [left; exact H|right; symmetry; exact H].
+Qed.
+
+Lemma required_graph_in c x :
+  In x (required_graph c) ->
+  (exists a, In a (c_args c) /\ a_required a = true /\ a_id a = x) \/
+  (exists g, In g (c_groups c) /\ g_required g = true /\ (g_id g = x \/ In x (g_requires g))).
+Proof.
+  unfold required_graph.
+  set (PA := fun l : list id => forall x, In x l -> exists a, In a (c_args c) /\ a_required a = true /\ a_id a = x).
+  assert (HA : PA (fold_left (fun g a => if a_required a then graph_insert g (a_id a) else g) (c_args c) [])).
+  { apply fold_left_inv with (P := PA); [|intros y []].
+    intros l a Hin HP y Hy. destruct (a_required a) eqn:Er; [|apply HP, Hy].
+    apply graph_insert_in in Hy. destruct Hy as [Hy| ->]; [apply HP, Hy|]. exists a. repeat split; assumption. }
+  set (PG := fun l : list id => forall x, In x l ->
+     (exists a, In a (c_args c) /\ a_required a = true /\ a_id a = x) \/
+     (exists g, In g (c_groups c) /\ g_required g = true /\ (g_id g = x \/ In x (g_requires g)))).
+  assert (HG : PG (fold_left (fun g grp => if g_required grp then graph_insert g (g_id grp) ++ g_requires grp else g)
+                             (c_groups c)
+                             (fold_left (fun g a => if a_required a then graph_insert g (a_id a) else g) (c_args c) []))).
+  { apply fold_left_inv with (P := PG); [|intros y Hy; left; apply HA, Hy].
+    intros l grp Hin HP y Hy. destruct (g_required grp) eqn:Er; [|apply HP, Hy].
+    apply in_app_or in Hy. destruct Hy as [Hy|Hy].
+    - apply graph_insert_in in Hy. destruct Hy as [Hy| ->]; [apply HP, Hy|].
+      right. exists grp. repeat split; try assumption. left; reflexivity.
+    - right. exists grp. repeat split; try assumption. right; exact Hy. }
+  intros H. apply HG, H.
+Qed.
+
+Lemma fold_graph_insert_in rs : forall req x, In x (fold_left graph_insert rs req) -> In x req \/ In x rs.
+Proof.
+  induction rs as [|r t IH]; intros req x; cbn [fold_left]; [tauto|].
+  intros H. apply IH in H. destruct H as [H|H]; [|right; right; exact H].
+  apply graph_insert_in in H. destruct H as [H| ->]; [left; exact H|right; left; reflexivity].
+Qed.
+
+(** [req] = the unconditional requirements plus, for every explicitly present argument, the closure of
+    its [requires] rules whose predicate holds, plus what explicitly present groups require *)
+Lemma gather_requires_in c m base req x :
+  gather_requires c m base = Some req -> In x req ->
+  In x base \/
+  exists p, In p (explicit_entries m) /\
+    ((exists a rs, find_arg c (fst p) = Some a /\
+                   unroll_arg_requires c (fun r => if check_explicit_m (fst r) (snd p) then Some (snd r) else None) (a_id a)
+                   = Some rs /\ In x rs)
+     \/ (exists g, find_arg c (fst p) = None /\ find_group c (fst p) = Some g /\ In x (g_requires g))).
+Proof.
+  unfold gather_requires.
+  set (P := fun acc : option (list id) =>
+              forall req, acc = Some req -> forall x, In x req ->
+              In x base \/
+              exists p, In p (explicit_entries m) /\
+                ((exists a rs, find_arg c (fst p) = Some a /\
+                     unroll_arg_requires c (fun r => if check_explicit_m (fst r) (snd p) then Some (snd r) else None) (a_id a)
+                     = Some rs /\ In x rs)
+                 \/ (exists g, find_arg c (fst p) = None /\ find_group c (fst p) = Some g /\ In x (g_requires g)))).
+  intros H Hx. revert req H x Hx. change (P (fold_left
+     (fun acc p => match acc with
+                   | None => None
+                   | Some req =>
+                       let '(name, matched) := p in
+                       match find_arg c name with
+                       | Some arg =>
+                           let is_relevant (r : pred * id) := if check_explicit_m (fst r) matched then Some (snd r) else None in
+                           match unroll_arg_requires c is_relevant (a_id arg) with
+                           | None => None
+                           | Some rs => Some (fold_left graph_insert rs req)
+                           end
+                       | None => match find_group c name with
+                                 | Some g => Some (fold_left graph_insert (g_requires g) req)
+                                 | None => Some req end
+                       end
+                   end) (explicit_entries m) (Some base))).
+  apply fold_left_inv with (P := P).
+  - intros acc [name matched] Hin HP req Hreq x Hx. destruct acc as [req0|]; [|discriminate Hreq].
+    destruct (find_arg c name) as [a|] eqn:Ea.
+    + cbv zeta in Hreq. destruct (unroll_arg_requires c _ (a_id a)) as [rs|] eqn:Eu; [|discriminate Hreq].
+      injection Hreq as <-. apply fold_graph_insert_in in Hx. destruct Hx as [Hx|Hx]; [apply (HP req0 eq_refl), Hx|].
+      right. exists (name, matched). split; [exact Hin|]. left. exists a, rs. cbn [fst snd]. repeat split; assumption.
+    + destruct (find_group c name) as [g|] eqn:Eg.
+      * injection Hreq as <-. apply fold_graph_insert_in in Hx. destruct Hx as [Hx|Hx]; [apply (HP req0 eq_refl), Hx|].
+        right. exists (name, matched). split; [exact Hin|]. right. exists g. cbn [fst]. repeat split; assumption.
+      * injection Hreq as <-. apply (HP req0 eq_refl), Hx.
+  - intros req Hreq x Hx. injection Hreq as <-. left; exact Hx.
+Qed.
+
+Example missing_example :
+  let a := (arg_new [97]) <| a_long := Some [97] |> <| a_required := true |> in
+  let c := (cmd_new [112]) <| c_args := [a] |> in
+  validate c matcher_new = VErr EMissingRequiredArgument [97].
+Proof. vm_compute. reflexivity. Qed.
